@@ -451,11 +451,23 @@ fn regular_case(rng: &mut Rng, rep: &mut Report) {
         let dir = unit_dir(rng, n);
         let rad = rad_max * rng.f();
         let kind = rng.below(10);
+        let mut near_r: Option<Vec<f64>> = None;
         let (start, start_kind): (Vec<f64>, &'static str) = match kind {
             0 => (sys.r.clone(), "on-root"),
             1 | 2 => {
                 // start at the origin: move the root so that the origin is inside the radius
                 sys.r = dir.iter().map(|d| -d * rad).collect();
+                // affine systems, Newton: "from any start including the origin" - half of them with the
+                // root 1e3 ... 1e7 away (one exact step; the stopping rule needs the second, whose update is
+                // rounding: cond eps |r|, kept below the tolerance by the choice of the distance)
+                if affine && which == 0 && (sys.r[0].to_bits() >> 7) % 2 == 0 {
+                    let far = 10f64.powf(3.0 + 4.0 * (((sys.r[0].to_bits() >> 9) % 1024) as f64 / 1024.0)).min(tol / (1000.0 * sys.cond * EPS));
+                    if far >= 500.0 {
+                        near_r = Some(sys.r.clone());
+                        sys.r = dir.iter().map(|d| -d * far).collect();
+                        rep.count("newton/affine_from_the_origin_with_a_far_root", 1);
+                    }
+                }
                 (vec![0.0; n], "origin")
             }
             _ => (sys.r.iter().zip(&dir).map(|(r, d)| r + d * rad).collect(), if affine { "affine-far" } else { "regular" }),
@@ -488,6 +500,10 @@ fn regular_case(rng: &mut Rng, rep: &mut Report) {
             rep.count(&format!("{}/affine_runs", method.name()), 1);
         }
         run_system(rep, &Run { sys: &sys, start, method, tol, n_max, expect: Expect::Root, start_kind });
+        // (the far root is for this Newton run only: the secant run that follows keeps the usual distances)
+        if let Some(r0) = near_r {
+            sys.r = r0;
+        }
     }
 }
 
@@ -601,6 +617,9 @@ pub fn thresholds(ctx: &Ctx, rep: &Report) -> Vec<Threshold> {
     for m in ["newton", "secant"] {
         t.push(Threshold { what: format!("{}: regular starts judged", m), required: q(18_000.0, 450_000.0), observed: rep.counter(&format!("{}/regular/regular", m)) as f64 });
         t.push(Threshold { what: format!("{}: starts exactly on the root", m), required: q(2_000.0, 50_000.0), observed: rep.counter(&format!("{}/regular/on-root", m)) as f64 });
+        if m == "newton" {
+            t.push(Threshold { what: "newton: affine systems started at the origin with the root 500 or more away".into(), required: q(300.0, 7_000.0), observed: rep.counter("newton/affine_from_the_origin_with_a_far_root") as f64 });
+        }
         t.push(Threshold { what: format!("{}: starts at the origin", m), required: q(4_000.0, 100_000.0), observed: rep.counter(&format!("{}/regular/origin", m)) as f64 });
         t.push(Threshold { what: format!("{}: affine systems", m), required: q(5_000.0, 120_000.0), observed: rep.counter(&format!("{}/affine_runs", m)) as f64 });
         t.push(Threshold { what: format!("{}: singular systems (Err expected)", m), required: q(20_000.0, 100_000.0), observed: rep.counter(&format!("{}/err_expected/singular-system", m)) as f64 });
